@@ -58,6 +58,26 @@ func main() {
 	edits := map[string]map[int]edit{}
 	used := map[string]bool{}
 	specOf := func(o types.Object) (string, bool) {
+		if fn, isFn := o.(*types.Func); isFn && fn.Pkg() != nil {
+			// pkg.Type.method=new or pkg..func=new
+			fn = fn.Origin()
+			recv := ""
+			if sig, ok := fn.Type().(*types.Signature); ok && sig.Recv() != nil {
+				t := sig.Recv().Type()
+				if pt, isP := t.(*types.Pointer); isP {
+					t = pt.Elem()
+				}
+				if n, isN := types.Unalias(t).(*types.Named); isN {
+					recv = n.Obj().Name()
+				}
+			}
+			k := fn.Pkg().Name() + "." + recv + "." + fn.Name()
+			if nn, ok := want[k]; ok {
+				used[k] = true
+				return nn, true
+			}
+			return "", false
+		}
 		v, ok := o.(*types.Var)
 		if !ok || !v.IsField() || v.Embedded() || v.Pkg() == nil {
 			return "", false
